@@ -38,6 +38,8 @@ type c15E2EGen struct {
 	ct   string
 	st   c15Settings
 	ec   *c15E2ECase
+	// middleware installed on the client (the path the response travels)
+	shape c15Shape
 	// a small body written in one uncompressed segment whose declaration (BOM / meta) is complete:
 	// read with Response.Bytes() it must come back transcoded on every protocol
 	small bool
@@ -191,7 +193,7 @@ func c15E2EFetch(s *verifh.Session, r *rand.Rand, c *Client, base string, how st
 	if stName == "prog" {
 		stName = "prog[" + c15ProgHuman(st.prog, st.use) + "]"
 	}
-	human := fmt.Sprintf("%s %s charset=%s site=%s settings=%s ct=%q len=%d segs=%d gzip=%v", how, mode, g.cs.label, g.site, stName, ct, len(b.body), len(g.ec.segs), g.ec.gzip)
+	human := fmt.Sprintf("%s %s charset=%s site=%s settings=%s stack=%s ct=%q len=%d segs=%d gzip=%v", how, mode, g.cs.label, g.site, stName, g.shape, ct, len(b.body), len(g.ec.segs), g.ec.gzip)
 	id := fmt.Sprintf("e2e/%s/%s/%s/%s/%s/%d", g.id, how, g.cs.label, g.site, st.kind, len(b.body))
 	s.Begin(id, human)
 	var got []byte
@@ -368,6 +370,13 @@ func TestVerif_C15_e2e(t *testing.T) {
 			c.EnableInsecureSkipVerify().EnableForceHTTP3()
 			base = o.h3URL
 		}
+		g.shape = c15GenShape(r, how != "h3")
+		shaped, tw, cw := c15ApplyShape(c, g.shape)
+		c15CountShape(s.Count, g.shape, tw, cw)
+		if shaped != c {
+			c15CloseClient(c) // the original never sent a request
+			c = shaped
+		}
 		use, others := c15E2EApply(c, &g.st, g.ct)
 		if g.st.kind == "prog" {
 			s.Count("settings-program")
@@ -395,8 +404,20 @@ func TestVerif_C15_e2e(t *testing.T) {
 			c.EnableInsecureSkipVerify().EnableForceHTTP3()
 			base = o.h3URL
 		}
+		// the long-lived client gets its middleware once
+		seqShape := c15GenShape(r, how != "seq-h3")
+		for len(seqShape.ops) == 0 {
+			seqShape = c15GenShape(r, how != "seq-h3")
+		}
+		shaped, tw, cw := c15ApplyShape(c, seqShape)
+		c15CountShape(s.Count, seqShape, tw, cw)
+		if shaped != c {
+			defer c15CloseClient(c)
+			c = shaped
+		}
 		for i := 0; i < m; i++ {
 			g := gen()
+			g.shape = seqShape
 			use, others := c15Reconfigure(c, &g.st, g.ct)
 			if use != c {
 				s.Count("request-by-a-clone")
@@ -414,10 +435,14 @@ func TestVerif_C15_e2e(t *testing.T) {
 	// ---- Alt-Svc upgrade: the same client, the same origin URL; the protocol changes underneath
 	for round := 0; round < verifh.N(2, 6); round++ {
 		c := C().SetTimeout(20 * time.Second).EnableInsecureSkipVerify().EnableHTTP3()
+		altShape := c15Shape{ops: [][]string{{"twf", "cw"}, {"header-order"}, {"tw", "pseudo-header-order"}, {"cwf"}, {"tw"}, {"twf", "twf"}}[round%6]}
+		_, tw, cw := c15ApplyShape(c, altShape)
+		c15CountShape(s.Count, altShape, tw, cw)
 		deadline := time.Now().Add(8 * time.Second)
 		onH3, before := 0, 0
 		for onH3 < m/2 {
 			g := gen()
+			g.shape = altShape
 			c15NoClone(&g.st) // a clone would have to learn the Alt-Svc advertisement again
 			c15Reconfigure(c, &g.st, g.ct)
 			proto := c15E2EFetch(s, r, c, o.tlsURL, "altsvc", g)
